@@ -36,6 +36,9 @@ def showMD (md : MD) : String :=
   ";".intercalate ((canon md).map fun (k, vs) => k ++ ":" ++ ",".intercalate (vs.map encString))
 
 def handle : List String → Option String
+  | ["stream", d, e] => do
+    let (code, ran) := stream (← stepOf d) (← stepOf e)
+    some s!"code={code} ran={boolTok ran}"
   | "unary" :: d :: e :: c :: "H" :: n :: rest => do
     let d ← stepOf d; let e ← stepOf e; let c ← stepOf c
     let (h, rest) ← parseMD (← n.toNat?) rest []
